@@ -1,6 +1,7 @@
 from checks import apifam
 GUARDS = {"NoOverlap", "ContentsKept.gen", "ContentsKept.bytes", "ObsOfLiveBlock", "CheckAllComplete", "FreeOfLiveBlock",
-          "ReallocOfLiveBlock", "QueryOfLiveBlock", "WriteOfLiveBlock", "UsableStable", "MovedDisjointFromOld", "BatchSortedDisjoint"}
+          "ReallocOfLiveBlock", "QueryOfLiveBlock", "WriteOfLiveBlock", "UsableStable", "MovedDisjointFromOld", "BatchSortedDisjoint",
+          "UsableAtLeastRequested", "Invariant.Inv", "LiveAccessible"}     # (a block smaller than what the entry point has to provide is not fully usable: e.g. a string copy without room for its terminator)
 def run(tier, seed):
     return apifam.run_api("C01", tier, seed, profiles=["c01", "bulk", "c05", "c10", "bulk", "c01"], builds=["rel", "dbg", "sec"], own_guards=GUARDS,
                           crash_decisive=True)
